@@ -165,7 +165,8 @@ class C06Monitor:
                 self.inc("calls_with_L_zero_at_both_ends_but_not_between")
         if rec["op"] == "update_all":
             self.inc("bulk_calls_checked")
-        self.mx("per_call_rel_over_bound", rel / b)
+        tag = ".compact_support" if flow.family in ("pulse", "band") else ""
+        self.mx("per_call_rel_over_bound" + tag, rel / b)
         if rel > b:
             self.v("per_call" if rec["op"] == "update" else "bulk", i, m0,
                    {"rel": rel, "bound": b, "strain": eps, "family": flow.family,
@@ -175,7 +176,7 @@ class C06Monitor:
         det_ref = float(np.linalg.det(F_in) * np.exp(world.trace_integral(flow, path, op["t0"], op["t1"])))
         det_tol = 18.0 * b * float(np.abs(Fref).max()) ** 3 + 1e-9
         d = abs(float(np.linalg.det(F_out)) - det_ref)
-        self.mx("det_err_over_tol", d / det_tol)
+        self.mx("det_err_over_tol" + tag, d / det_tol)
         if d > det_tol:
             self.v("det", i, m0, {"det": float(np.linalg.det(F_out)), "det_ref": det_ref,
                                   "tol": det_tol, "family": flow.family, "solver_steps": rec["steps"]})
@@ -189,7 +190,7 @@ class C06Monitor:
             self.cum[m] = [newref.copy(), N, st]
         relc = float(np.abs(F_out - newref).max() / np.abs(newref).max())
         bc = call_bound(N, st)
-        self.mx("cumulative_rel_over_bound", relc / bc)
+        self.mx("cumulative_rel_over_bound" + (".compact_support" if self.compact else ""), relc / bc)
         if relc > bc:
             self.v("cumulative", i, lead, {"rel": relc, "bound": bc, "N": N, "strain": st,
                                            "family": flow.family, "solver_steps": rec["steps"],
@@ -241,7 +242,9 @@ def execute(scn):
             tol = call_bound(N, st) + call_bound(1, st)
             rel = float(np.abs(F_split - F_whole).max() / np.abs(F_whole).max())
             mon.inc("split_vs_whole_checked")
-            mon.mx("split_rel_over_tol", rel / tol)
+            fam0 = world.flows[part_ok[0]["flow"]].family
+            mon.mx("split_rel_over_tol" + (".compact_support" if fam0 in ("pulse", "band") else ""),
+                   rel / tol)
             if rel > tol:
                 fam = world.flows[part_ok[0]["flow"]].family
                 mon.v("split_vs_whole", len(scn["ops"]), m,
